@@ -636,3 +636,18 @@ DEFAULT['all_nonfinal'] = twin_all_nonfinal
 from . import tokens as _tokens  # noqa: E402
 DEFAULT['csi_tokens'] = _tokens.twin_csi_tokens
 MODULAR['B1'] = {'ParsedAnsiControlSequenceString.__init__': _tokens.summ_parsed_init}
+
+DEFAULT['__match__.start'] = bm._match_method('start')
+DEFAULT['__match__.end'] = bm._match_method('end')
+
+
+def twin_re_finditer(interp, func, args, kwargs):
+    return bm._b_re_finditer(interp, ctx(), list(args), {})
+
+
+def twin_re_escape(interp, func, args, kwargs):
+    return bm._b_re_escape(interp, ctx(), list(args), {})
+
+
+DEFAULT['re_finditer'] = twin_re_finditer
+DEFAULT['re_escape'] = twin_re_escape
